@@ -173,13 +173,16 @@ def replay_one(behaviour, fam, transport, level, res, casedoc):
     req = make_request(fam, h, fp)
     b.rec.reset()
     b.rec.script['m'] = script
+    # 'wsgi-unread': the server closes the response iterable without reading it (HEAD request, client gone);
+    # 'wsgi-one-chunk': it stops after the first chunk.  The events of the call are the same.
+    abort = {'wsgi-unread': 0, 'wsgi-one-chunk': 1}.get(transport)
     if fam == 'http':
         env = drv.environ('GET', req[0], req[1], b'', content_type=None, content_length=None)
-        o = drv.call_wsgi(h.wsgi, env)
-    elif transport == 'wsgi':
+        o = drv.call_wsgi(h.wsgi, env, abort_after=abort)
+    elif transport.startswith('wsgi'):
         w = WsgiApplication(h.app)
         env = drv.environ('POST', '/', '', req, content_type='text/xml; charset=utf-8')
-        o = drv.call_wsgi(w, env)
+        o = drv.call_wsgi(w, env, abort_after=abort)
     else:
         o = drv.call_server(h.srv, req)
     return traces, o
@@ -211,7 +214,7 @@ def run_shard(shard, only=None):
         if fam not in REALISABLE[fp]:
             res['notes']['skipped:%s-not-realisable-in-%s' % (fp, fam)] = 1
             return res
-        transports = ['wsgi'] if (fam == 'http' or fp == 'serialize') else ['server', 'wsgi']
+        transports = ['wsgi', 'wsgi-unread', 'wsgi-one-chunk'] if (fam == 'http' or fp == 'serialize') else ['server', 'wsgi', 'wsgi-unread', 'wsgi-one-chunk']
         levels = ['application', 'service', 'method'] if fp in ('call_listener', 'return_listener') else ['application']
         for transport in transports:
             for level in levels:
